@@ -103,21 +103,32 @@ func genC06(rng *rand.Rand, idx int, wide bool) c06case {
 		}
 		c.Name = "replicas"
 		if kind == 5 && k >= 2 {
-			// duplicate: a second replica of one party takes part instead of another party's node
+			// duplicate: a second replica of one party takes part instead of another party's node. The duplicated party is, in
+			// turn, the one with the lowest, a middle and the highest party id among the participants (idx/6 cycles through them).
+			order := append([]uint16{}, parties...)
+			sort.Slice(order, func(i, j int) bool { return order[i] < order[j] })
+			dupParty := order[[]int{0, len(order) / 2, len(order) - 1}[(idx/6)%3]]
+			dupIdx := 0
+			for i, p := range parties {
+				if p == dupParty {
+					dupIdx = i
+				}
+			}
 			var victim uint16
 			found := false
 			for n, p := range c.Map {
-				if p == parties[0] && n != nodes[0] {
+				if p == dupParty && n != nodes[dupIdx] {
 					victim, found = n, true
 					break
 				}
 			}
 			if !found {
 				victim = pick(usedN, true)
-				c.Map[victim] = parties[0]
+				c.Map[victim] = dupParty
 			}
-			nodes[len(nodes)-1] = victim
-			// the node that was replaced stays in the map as a non-participating member
+			// the node replaced is one of another party (if any), so that the duplicated party keeps both of its nodes
+			repl := (dupIdx + 1) % len(nodes)
+			nodes[repl] = victim
 			c.Dup = true
 			c.Name = "duplicate-party"
 		}
